@@ -157,13 +157,19 @@ def items(tier: str, seed: int) -> list[dict]:
                     reqs = [True, False]
                 if loc == "header" and (schema == {"type": "integer"} or not quick):
                     reqs = [True, False]
+                # path parameters that accept everything end in a ~2000-execution liveness tree per mode (see KF-C02-1/2); the
+                # mixed-modes run gives no liveness verdict for them, so the quick tier runs them in negative-only mode
+                modes = [N] if quick and loc == "path" and fam in ("string", "misc") else both
                 for required in reqs:
-                    out.append(_item(spec, [_param(loc, schema, required)], None, fam, tier, modes=both))
+                    out.append(_item(spec, [_param(loc, schema, required)], None, fam, tier, modes=modes))
             # un-negatable parameter shapes
             for required in (True, False):
-                if loc == "path" and not required:
+                if loc == "path" and (not required or (quick and spec == "2.0")):
                     continue
-                out.append(_item(spec, [_param(loc, {"type": "string"}, required)], None, "unnegatable", tier, shape="plain_string", modes=both))
+                if not full and not required and loc != "header":
+                    continue
+                out.append(_item(spec, [_param(loc, {"type": "string"}, required)], None, "unnegatable", tier, shape="plain_string",
+                                 modes=[N] if quick and loc == "path" else both))
                 if spec != "2.0":
                     out.append(_item(spec, [_param(loc, {}, required)], None, "unnegatable", tier, shape="empty_schema", modes=both))
         # bodies
@@ -212,7 +218,7 @@ def items(tier: str, seed: int) -> list[dict]:
         if spec == "2.0":
             mixes = [m for m in mixes if not any(p["in"] == "cookie" or p["schema"] == {} for p in m[0])]
         if quick:
-            mixes = mixes[:-1] if full else mixes[:2]
+            mixes = mixes[:-1] if full else (mixes[:2] if spec == "2.0" else [mixes[1], mixes[4]])
         for params, body, modes in mixes:
             out.append(_item(spec, params, body, "mixed", tier, shape="mixed", modes=modes if quick else [N, PN]))
     return out
@@ -572,6 +578,7 @@ def judge(res: Result, acc: _Item, ctx: dict, case: Any, choices: list[int], whi
         acc.violation({**base, "kind": "no_component_labelled_negative"}, detail)
     judged_negative = False
     really_negative = False
+    negative_label_on_declared_input = False
     verdicts: dict[str, Any] = {}
     for kind, info in case.meta.components.items():
         component = kind.value
@@ -598,6 +605,8 @@ def judge(res: Result, acc: _Item, ctx: dict, case: Any, choices: list[int], whi
         verdicts[component] = {"label": info.mode.value, "present": present, **lv}
         sig = {"component": component}
         if info.mode == GenerationMode.NEGATIVE:
+            if present or declared:
+                negative_label_on_declared_input = True
             if not present:
                 acc.violation({**sig, "kind": "negative_label_on_absent_component", "input_declared": declared,
                                "absent_component_conforms": lv["wire"]}, detail | {"verdicts": dict(verdicts)})
@@ -627,6 +636,12 @@ def judge(res: Result, acc: _Item, ctx: dict, case: Any, choices: list[int], whi
                 res.count("undecided_components")
             else:
                 res.count("positive_components_conform")
+    if not negative_label_on_declared_input:
+        # "at least one part is labelled negative" + "every part labelled negative is present and violates" => some present part
+        # violates; here every negative label sits on a location for which nothing is declared and nothing is sent
+        acc.violation({"kind": "negative_labels_only_on_undeclared_absent_components",
+                       "positive_components": sorted(k.value for k, i in case.meta.components.items() if i.mode != GenerationMode.NEGATIVE)},
+                      detail | {"verdicts": dict(verdicts)})
     if really_negative:
         res.count("cases_with_a_violating_negative_component")
     if judged_negative:
